@@ -426,6 +426,107 @@ func TestPropGenerated(t *testing.T) {
 	})
 }
 
+// goToks: what can stand where templ hands the rest of the input to go/parser or go/scanner to find
+// the end of a Go expression. Most sequences are not valid Go; go/parser runs in error-recovering
+// mode there, so what matters is what templ does with the partial syntax tree.
+var goToks = []string{"a", "A", "b.c", "0", "1.5", `"s"`, `"{"`, `"}"`, "`r`", "`}`", "'c'", "'}'", "{", "}", "(", ")", "[", "]", ".", ",", ":", ";", " ", "  ", "\n", "\t",
+	"func", "func()", "struct{}", "map[string]int", "[]any", "[]string", "interface{}", "+", "-", "*", "&", "!", "<", ">", "<=", "==", "!=", "&&", "||", "=", ":=", "//", "// c\n", "/*", "*/", "/* } */", "...",
+	"é", "世", `"`, "`", "'", "\\", "if", "else", "for", "range", "switch", "case", "default", "return", "go", "defer", "chan", "<-", "%", "|", "^", "?", "@", "#", "$", "_", "nil", "true", "len(a)", "a[0]", "a[1:2]",
+	"fmt.Sprint(a)", "templ.KV(a, b)", "T{A: 1}", "&T{}", "[]T{{1}, {2}}", "func() string { return a }()", "x.(string)", "a...", "i := 0; i < 3; i++", "_, x := range xs", "x := a.(type)"}
+
+// goExprs are complete Go expressions / clause headers that templ has to find the end of.
+var goExprs = []string{"a", "b", `"s"`, "a + b", "fmt.Sprint(a)", `T{A: "x"}.S`, "[]string{a, b}[0]", "func() string { return a }()", "m[a]", "a[1:2]", "x.(string)", "strings.ToUpper(a)",
+	"`raw`", `"}"`, "`{`", `"{{"`, "'}'", `T{}.M(a, "}")`, "[]T{{a}, {b}}[0].S", "map[string]string{a: b}[a]", "(a)", "a /* } */ + b", "a + // }\n\t\tb", "struct{ S string }{a}.S",
+	`fmt.Sprintf("%s{%d}", a, 1)`, "T{\n\t\tA: a,\n\t}.S", "f(func() { g() })", "a == b", "len(xs) > 0", "!ok", "i := 0; i < 3; i++", "_, x := range xs", "i := range 3", "x := v.(type)",
+	"é", `"é世" + a`, "templ.KV(a, true)", `templ.Attributes{"a": a}`, "comp(a, b)", "pkg.Comp{A: a}.View()", "comps[0]", "T[string]{V: a}.View()", "a[len(a)-1:]", "*p", "&T{}", "<-ch", "-1", "^x", "a<<2"}
+
+// genGoShaped puts token sequences into every position where templ expects Go: string
+// expressions, attribute values, class lists, spreads, calls with and without blocks, if / else
+// if / for / switch / case headers, raw Go blocks, template parameter lists, script arguments.
+var genGoShaped = rapid.Custom(func(t *rapid.T) string {
+	expr := func(label string) string {
+		var sb strings.Builder
+		// four fifths of the expressions are complete Go (with braces, brackets, quotes and comments in
+		// places where a naive scan for the closing brace goes wrong), optionally joined by an
+		// operator; the rest is token soup
+		if rapid.IntRange(0, 4).Draw(t, label+"-valid") > 0 {
+			sb.WriteString(rapid.SampledFrom(goExprs).Draw(t, label+"-v1"))
+			if rapid.IntRange(0, 2).Draw(t, label+"-more") == 0 {
+				sb.WriteString(rapid.SampledFrom([]string{" + ", " +\n\t\t", " == ", " && ", ", ", "."}).Draw(t, label+"-op"))
+				sb.WriteString(rapid.SampledFrom(goExprs).Draw(t, label+"-v2"))
+			}
+			return sb.String()
+		}
+		for i, n := 0, rapid.IntRange(1, 7).Draw(t, label+"-n"); i < n; i++ {
+			sb.WriteString(rapid.SampledFrom(goToks).Draw(t, label))
+		}
+		return sb.String()
+	}
+	var sb strings.Builder
+	sb.WriteString("package p\n\n")
+	if rapid.IntRange(0, 5).Draw(t, "params") == 0 {
+		sb.WriteString("templ T(" + expr("param") + ") {\n")
+	} else {
+		sb.WriteString("templ T(a, b string, xs []string) {\n")
+	}
+	for i, n := 0, rapid.IntRange(1, 4).Draw(t, "nodes"); i < n; i++ {
+		e := expr("e")
+		switch rapid.IntRange(0, 15).Draw(t, "shape") {
+		case 0:
+			sb.WriteString("\t{ " + e + " }\n")
+		case 1:
+			sb.WriteString("\t{" + e + "}\n")
+		case 2:
+			sb.WriteString("\t<div title={ " + e + " }>x</div>\n")
+		case 3:
+			sb.WriteString("\t<div class={ " + e + " }>x</div>\n")
+		case 4:
+			sb.WriteString("\t<div { " + e + "... }>x</div>\n")
+		case 5:
+			sb.WriteString("\t<input disabled?={ " + e + " }/>\n")
+		case 6:
+			sb.WriteString("\t@" + e + "\n")
+		case 7:
+			sb.WriteString("\t@" + e + " {\n\t\t<b>x</b>\n\t}\n")
+		case 8:
+			sb.WriteString("\tif " + e + " {\n\t\t<b>x</b>\n\t} else if " + expr("e2") + " {\n\t\ty\n\t}\n")
+		case 9:
+			sb.WriteString("\tfor " + e + " {\n\t\t<b>x</b>\n\t}\n")
+		case 10:
+			sb.WriteString("\tswitch " + e + " {\n\t\tcase " + expr("e2") + ":\n\t\t\t<b>x</b>\n\t\tdefault:\n\t\t\ty\n\t}\n")
+		case 11:
+			sb.WriteString("\t{{ " + e + " }}\n")
+		case 12:
+			sb.WriteString("\t<a href={ " + e + " }>x</a>\n")
+		case 13:
+			sb.WriteString("\t<div\n\t\tif " + e + " {\n\t\t\tid={ " + expr("e2") + " }\n\t\t}\n\t>x</div>\n")
+		case 14:
+			sb.WriteString("\t<script>var v = {{ " + e + " }}; var w = \"{{ " + expr("e2") + " }}\";</script>\n")
+		default:
+			sb.WriteString("\t<button onclick={ " + e + " }>x</button> { " + expr("e2") + " } tail\n")
+		}
+	}
+	sb.WriteString("}\n")
+	if rapid.IntRange(0, 4).Draw(t, "tail") == 0 {
+		sb.WriteString("\nfunc f(" + expr("fp") + ") string { return \"\" }\n\ntempl U() {\n\t<p>{ f() }</p>\n}\n")
+	}
+	return sb.String()
+})
+
+func TestPropGoShaped(t *testing.T) {
+	rapid.Check(t, func(t *rapid.T) {
+		src := genGoShaped.Draw(t, "input")
+		if _, _, gerr := tc.Generate(src, "f.templ"); gerr == nil {
+			recPos.Class("go-shaped input accepted by templ generate")
+		} else {
+			recPos.Class("go-shaped input rejected")
+		}
+		if err := decide(src, nil, false); err != nil {
+			fail(t, src, err)
+		}
+	})
+}
+
 func FuzzParse(f *testing.F) {
 	for i, sd := range corpus.Seeds() {
 		if i%3 == 0 && len(sd.Text) < 3000 {
